@@ -24,7 +24,7 @@ COMPONENTS = {"real": REAL_BASE + ["AirConditioner.refresh/apply/get_capabilitie
 BASES = ["state", "caps", "caps2", "props", "props_ack", "energy", "humidity"]
 OPS = ["refresh", "apply", "caps", "toggle", "selfclean"]
 # number of requests each op issues once the full capability profile is learned
-NREQ = {"refresh": 4, "apply": 1, "caps": 1, "toggle": 2, "selfclean": 1}
+NREQ = {"refresh": 4, "apply": 2, "caps": 1, "toggle": 2, "selfclean": 1}
 RAW_FRAMES = ["", "aa", "aa00", "aa0aac", "aa0aac00000000000003", "aa0aac0000000000000347", "aa0bac00000000000003c08a",
               "aa0cac00000000000003c000" + "8a", "00", "ff" * 11, "aa0bac00000000000003b1" + "00", "aa0bac00000000000003b5" + "00",
               "aa0cac00000000000003c1c1" + "00", "aa0dac00000000000003c1210144"]
@@ -62,16 +62,14 @@ def run(plan):
                 return
         nreq = NREQ[opname]
         if plan.get("caps_profile") is not None and opname == "refresh":
-            nreq = 1 + sum(1 for c, _v in plan["caps_profile"] if c in (0x0216, 0x021F)) + (
-                1 if any(c in (0x0009, 0x000A, 0x0042, 0x0018, 0x0048, 0x0043, 0x00E3, 0x0039) for c, _v in plan["caps_profile"]) else 0)
+            nreq = 4       # upper bound; unused directives are simply dropped
         net = [{} for _ in range(nreq + 1)]
         net[which % nreq] = {"app": spec}
         op = {"op": opname, "net": net}
         if opname == "apply":
+            # property settings changed too, so that apply() makes its second (property write) exchange
             op["set"] = {"target_temperature": 21.5, "power_state": True, "ieco": True, "rate_select": 40}
             net.append({})
-            if plan.get("which", 0) % 2 == 1:
-                net[0], net[1] = {}, {"app": spec}
         o = await s.do(op)
         if o.kind != "ok":
             res.fail(f"{opname} raised {o.exc_type}", f"{spec} -> {o.exc!r}")
@@ -178,6 +176,18 @@ def space(tier):
                         "place": "alone" if version == 2 else ["alone", "before_good", "after_good"][(k // (2 * len(OPS))) % 3]}}
     sp.add("raw_frames", len(RAW_FRAMES) * len(OPS) * 2 * 3, raw_fn, exhaustive=True)
 
+    def ftype_fn(j, rng):
+        """Every response kind under every frame type byte 0..8 (e.g. a capability notification of type 0x05)."""
+        base = BASES[j % len(BASES)]
+        ft = (j // len(BASES)) % 9
+        k = j // (len(BASES) * 9)
+        opname = OPS[k % len(OPS)]
+        version = 2 + (k // len(OPS)) % 2
+        return {"config": cfg(version), "target": opname, "which": rng.randrange(NREQ[opname]),
+                "app": {"base": base, "edit": [["ftype", ft]],
+                        "place": "alone" if version == 2 else ["alone", "before_good", "after_good"][(k // (2 * len(OPS))) % 3]}}
+    sp.add("frame_types", len(BASES) * 9 * len(OPS) * 2 * 3, ftype_fn, exhaustive=True)
+
     def oversized_fn(j, rng):
         version = rng.choice([2, 3])
         opname = rng.choice(OPS)
@@ -212,6 +222,14 @@ def space(tier):
                      "place": "alone" if version == 2 else rng.choice(
                          ["alone", "before_good"] if base == "state" else ["alone", "before_good", "after_good"])}}
         prof = PROFILES[j % len(PROFILES)]
+        if j % 2:
+            # a random well-formed profile: any known capability id with any value
+            ids = [0x0210, 0x0212, 0x0213, 0x0214, 0x0215, 0x0216, 0x0217, 0x0219, 0x021A, 0x021E, 0x021F, 0x0222, 0x0224,
+                   0x0009, 0x000A, 0x0018, 0x0039, 0x0042, 0x0043, 0x0048, 0x00E3]
+            prof = [[cid, bytes([rng.choice([0, 1, 2, 3, 4, 5, 6, 7, 9, 100, rng.randrange(256)])]).hex()]
+                    for cid in rng.sample(ids, rng.randint(1, 8))]
+            if rng.random() < 0.3:
+                prof.append([0x0225, bytes([rng.randrange(256) for _ in range(7)]).hex()])
         if prof is not None:
             p["caps_profile"] = prof
         return p
